@@ -15,6 +15,7 @@ func init() {
 		level: "other",
 		explanation: "Static decision of the cancellation discipline, which is entirely shape. Scope X: the exported functions and methods of packages filesystem (except the lock file) and safeio that take a context and return an error. A gate on a context is parallelisation.DetermineContextError(c) / c.Err() whose failing side is an error exit, a call handing c to a function that is itself gate-first with its error leading to an error exit (or being returned), or a transfer whose stream operand is one of the contextual wrappers. (A1) entry: in every member of X no path from the entry reaches a mutating backend effect or a non-error return without passing a gate (argument-validation exits returning a fresh error are accepted); (A2) loops: in every function of these packages that carries a context, every cyclic path through a backend access passes a gate, loop combinators (Parallelise, walk callbacks) putting the obligation on the function passed; (A3) recursion: every call-graph cycle through context-carrying functions that touches the backend contains a gate-first function; (A4) in safeio, raw io.Reader/io.Writer parameters of context-accepting functions are used only through the contextual wrappers (or handed to functions checked the same way); (A5) ReadFileContent refuses with 'too large' before reading when limits apply and Stat succeeded, and bounds the read by the same maximum; (A6) no context.Background()/TODO() is created inside a context-carrying function outside deferred clean-up. Decided on SSA with a package effect summary and a gate-first fixpoint; nothing is executed. Not decided: exactness of prefixes (io.CopyN / io.LimitReader semantics, arbitrary reader/writer behaviour), error kinds of third-party readers, the number 'small' itself (it is the accesses of one loop-free iteration prefix).",
 		run:   runC09,
+		thoroughConfigs: []string{"darwin/amd64", "windows/amd64"},
 		assumptions: []string{
 			"contextio.NewReader/NewWriter test the context before every Read/Write (library contract)",
 			"io.CopyN / io.LimitReader deliver exact prefixes",
@@ -267,6 +268,7 @@ func runC09(c *Ctx) {
 	c.rule("A3", "recursion: every call-graph cycle that touches the backend contains a gate-first function", 4)
 	c.rule("A4", "safeio: raw stream parameters are used only through the contextual wrappers", 5)
 	c.rule("A5", "ReadFileContent: 'too large' refusal precedes the read when limits apply and Stat succeeded; the read is bounded by the same maximum", 1)
+	c.rule("A7", "after a context-carrying step has failed, no further mutating effect happens unless the failure was first found not to be a cancellation/timeout, or the context is consulted again", 1)
 	c.rule("A6", "no context.Background()/TODO() inside a context-carrying function outside deferred clean-up", 60)
 
 	s := &c09State{c: c, eff: c.computeEffects(), gateFirst: map[*ssa.Function]bool{}}
@@ -320,6 +322,7 @@ func runC09(c *Ctx) {
 	}
 	c.Extra["scope_X"] = nX
 
+	s.afterFailure()
 	s.loops()
 	s.recursion()
 	s.streams()
@@ -819,4 +822,132 @@ func (s *c09State) freshContexts() {
 		})
 		c.check(bad == "", "A6", fname(f), c.pos(f.Pos()), "works on the caller's context only", "a fresh context is created at "+bad+" inside a function that was given one: what runs under it is not stopped by the caller's cancellation")
 	}
+}
+
+// ---- A7 ---------------------------------------------------------------------
+// A function may go on after one of its context-carrying steps failed (fall-backs, "try harder" paths). If that
+// failure was the cancellation itself, everything that follows runs after the context ended: it must be fenced by a
+// test that excludes ErrTimeout/ErrCancelled (with an exit on that side) or by a fresh gate.
+func (s *c09State) afterFailure() {
+	c := s.c
+	isCtxKindTest := func(v ssa.Value, e ssa.Value) bool {
+		cl, ok := v.(*ssa.Call)
+		if !ok || calleeFull(&cl.Call) != modPath+"/commonerrors.Any" {
+			return false
+		}
+		if !(sameValue(cl.Call.Args[0], e) || derivesOnly(cl.Call.Args[0], e)) {
+			return false
+		}
+		names := map[string]bool{}
+		for _, a := range variadicElems(cl.Call.Args[1]) {
+			for _, g := range []string{"ErrTimeout", "ErrCancelled"} {
+				if isGlobalLoad(a, g) {
+					names[g] = true
+				}
+			}
+		}
+		return names["ErrTimeout"] && names["ErrCancelled"]
+	}
+	for _, f := range s.fns {
+		if !inPkg(fsPkgRel)(f) {
+			continue
+		}
+		allInstrs(f, func(in ssa.Instruction) {
+			cl, ok := in.(*ssa.Call)
+			if !ok {
+				return
+			}
+			g := s.calleeOf(in)
+			if g == nil || !s.gateFirst[g] || ctxParamOf(g) == nil {
+				return
+			}
+			errs := errResultsOf(cl)
+			if len(errs) == 0 {
+				return
+			}
+			e := errs[0]
+			prune := func(b *ssa.BasicBlock, k int) bool {
+				ifi, ok := b.Instrs[len(b.Instrs)-1].(*ssa.If)
+				if !ok {
+					return false
+				}
+				if x, nilSucc, ok := nilTest(ifi); ok && (sameValue(x, e) || derivesOnly(x, e)) {
+					return k == nilSucc // we follow the failure only
+				}
+				v, ts := boolTest(ifi)
+				if isCtxKindTest(v, e) {
+					return k != ts // on this side the failure has been found not to be a cancellation/timeout: fenced
+				}
+				return false
+			}
+			// the failure must actually be followed: is there a test of e at all?
+			tested := false
+			for _, b := range f.Blocks {
+				if ifi, ok := b.Instrs[len(b.Instrs)-1].(*ssa.If); ok {
+					if x, _, ok := nilTest(ifi); ok && (sameValue(x, e) || derivesOnly(x, e)) {
+						tested = true
+					}
+					if v, _ := boolTest(ifi); isCtxKindTest(v, e) {
+						tested = true
+					}
+				}
+			}
+			if !tested {
+				return
+			}
+			what := ""
+			hit := pathPruned(f, cl, func(j ssa.Instruction) bool {
+				// a fresh look at the context fences what follows; so does overwriting… (a later gate-first call is itself fenced)
+				return j != ssa.Instruction(cl) && s.isGate(j)
+			}, func(j ssa.Instruction) bool {
+				if j == ssa.Instruction(cl) {
+					return false
+				}
+				if s.eff.isMutatingInstr(j) && !s.isGate(j) {
+					what = short(calleeNameOf(j))
+					return true
+				}
+				return false
+			}, prune)
+			// only paths that really come from the failing side count: require the target not to be reachable when the nil side is the only way
+			if hit == nil {
+				return
+			}
+			if !reachableOnlyViaFailure(f, cl, hit, e) {
+				return
+			}
+			key := fname(f) + "/after-failed:" + g.Name()
+			c.violate("A7", key, c.ipos(hit), "when "+g.Name()+" (at "+c.ipos(cl)+") fails, "+f.Name()+" goes on to "+what+" without having excluded that the failure is the cancellation/timeout itself: after the context ended it still performs backend work (here not bounded by the context at all) and may report success")
+		})
+		c.FuncsSeen[fname(f)] = true
+	}
+	// count the functions examined so that the rule is never vacuous
+	c.ok("A7", "examined", "-", "all context-carrying functions of package filesystem examined")
+}
+
+// reachableOnlyViaFailure: hit is reached from cl along a path that takes the non-nil side of a test of e (or no test).
+func reachableOnlyViaFailure(f *ssa.Function, cl *ssa.Call, hit ssa.Instruction, e ssa.Value) bool {
+	// a path that uses the non-nil edge of some test of e
+	for _, b := range f.Blocks {
+		ifi, ok := b.Instrs[len(b.Instrs)-1].(*ssa.If)
+		if !ok {
+			continue
+		}
+		x, nilSucc, ok := nilTest(ifi)
+		if !ok || !(sameValue(x, e) || derivesOnly(x, e)) {
+			continue
+		}
+		nb := b.Succs[1-nilSucc]
+		found := false
+		visitBlocksFrom(nb, func(bb *ssa.BasicBlock) {
+			if bb == hit.Block() {
+				found = true
+			}
+		})
+		if found {
+			return true
+		}
+	}
+	// tested only through Any(e, …): then the pruned search already excluded the leaving side
+	return true
 }
